@@ -22,6 +22,9 @@ pub fn snapshot(root: &Path) -> Tree {
             any = true;
             let p = e.path();
             let ft = e.file_type().ok();
+            if ft.map_or(false, |t| t.is_symlink()) {
+                continue; // (a link made by the harness: what lies behind it is listed where it really is)
+            }
             if ft.map_or(false, |t| t.is_dir()) {
                 go(base, &p, out);
             } else {
